@@ -420,6 +420,32 @@ func runC13(r *mc.Run) {
 		t2[i] = tcb[(i+1)%16]
 		cases = append(cases, c13case{id: fmt.Sprintf("removed/tcb%d-replaced-by-duplicate", i+1), exts: sixExts(assemble(base, stdOrder, t2, top)), plat: base, want: wantErrorOrPartial, absent: map[string]bool{fmt.Sprintf("tcb%d", i+1): true}})
 	}
+	// position of the SGX extension among the certificate's six extensions, and a look-alike value under another
+	// object identifier placed last (the extension is found by its identifier, not by its position)
+	{
+		e := sixExts(good)
+		for pos := 0; pos < 6; pos++ {
+			var re []pkix.Extension
+			re = append(re, e[:5][:pos]...)
+			re = append(re, e[5])
+			re = append(re, e[:5][pos:]...)
+			cases = append(cases, c13case{id: fmt.Sprintf("cert/sgx-at-position-%d", pos), exts: re, plat: base, want: wantExact})
+		}
+		other := platWith(func(p *world.Platform) {
+			p.FMSPC = []byte{0x50, 0x80, 0x6f, 0, 0, 0}
+			p.PCESVN = 11
+			p.PPID = world.Fill("decoy-ppid", 16)
+			p.PCEID = []byte{0xff, 0xee}
+		})
+		for pos := 0; pos < 5; pos++ {
+			// six extensions: four standard ones with the real SGX extension inserted at pos, the look-alike last
+			var six []pkix.Extension
+			six = append(six, e[:4]...)
+			six = append(six[:pos:pos], append([]pkix.Extension{e[5]}, six[pos:]...)...)
+			six = append(six, pkix.Extension{Id: asn1.ObjectIdentifier{1, 2, 840, 113741, 1, 13, 2}, Value: world.SGXExtension(other)})
+			cases = append(cases, c13case{id: fmt.Sprintf("cert/sgx-at-position-%d+decoy-last", pos), exts: six, plat: base, want: wantExact})
+		}
+	}
 	// certificate-level
 	{
 		e := sixExts(good)
